@@ -1082,6 +1082,19 @@ def check_one_cascade(ctx, w, cas, cs_seed):
         accepted = False
     ctx.case(key, nontrivial=len(stages) >= 2, sample=key)
     ctx.hyp_checked += 1
+    # the public validator called directly on the same cascade must give the same verdict as the evaluation did (a cascade is valid or it is not)
+    if isinstance(arg, (dict, sc.odict)):
+        try:
+            at.cascade.validate_cascade(fw, arg)
+            direct_ok = True
+        except InvalidCascade:
+            direct_ok = False
+        except Exception as ex:
+            direct_ok = f"{type(ex).__name__}: {str(ex)[:80]}"
+        ctx.count("cascade.validated_directly")
+        if direct_ok is not accepted:
+            ctx.violation({"api": "validate_cascade", "defect": "verdict_differs_from_get_cascade_vals"},
+                          f"{w.name}: validate_cascade({dict(arg)!r}) -> {'valid' if direct_ok is True else ('InvalidCascade' if direct_ok is False else direct_ok)}, but get_cascade_vals {'evaluates it' if accepted else 'refuses it as InvalidCascade'}", replay)
     has_den = any(has_denominator(fw, c) for _, cons in stages for c in cons)
     if not accepted:
         ctx.count("cascade.rejected")
